@@ -106,6 +106,28 @@ def special_corpus(rng, nprng):
             out.append(Plain(op, f"({u} {v}), {u} {v}", [x.reshape(6), x], {u: 2}))
         else:
             out.append(Plain(op, f"{u} {v} 1, {u} {v}", [x[..., None], x]))
+    # overlapping candidates for common-subexpression elimination: a run of 3-4 axes occurs in a flattened axis on both sides, only its product is
+    # determined; which sub-run is eliminated (and hence whether the call is solvable) must not depend on set iteration order
+    for _ in range(40):
+        k = rng.choice([3, 3, 4])
+        nms = rng.sample(["a", "b", "c", "d", "e", "f", "g", "h", "m", "n", "p", "q", "u", "v", "w", "zz", "k0", "x1"], k + 2)
+        run, d_, e_ = nms[:k], nms[k], nms[k + 1]
+        total = rng.choice([6, 8, 12])
+        dv, ev = rng.choice([2, 3]), rng.choice([2, 3])
+        form = rng.randrange(3)
+        if form == 0:
+            d = f"({' '.join(run)} {d_}) -> ({e_} {' '.join(run)}) {d_}"
+            t = [np.arange(float(total * dv))]
+            kw = {d_: dv, e_: ev}
+        elif form == 1:
+            d = f"({d_} {' '.join(run)}) {e_} -> {e_} {d_} ({' '.join(run)})"
+            t = [np.arange(float(total * dv * ev)).reshape(total * dv, ev)]
+            kw = {d_: dv}
+        else:
+            d = f"({' '.join(run)} {d_}), ({' '.join(run)}) -> ({' '.join(run)}) {d_}"
+            t = [np.arange(float(total * dv)), np.arange(float(total))]
+            kw = {d_: dv}
+        out.append(Plain(rng.choice(["id", "id", "sum"]) if form != 2 else "add", d if form != 0 or True else d, t, kw, family="cse-overlap"))
     # calls that are ill-formed in two or more ways at once: which error is reported must not depend on an iteration order
     # (sets of axis names, dict order derived from a set) and hence not on the hash seed
     pool = ["a", "b", "c", "p", "q", "m", "n", "zz", "k0", "w", "h", "ab", "x1", "u", "v", "t"]
@@ -172,10 +194,13 @@ def run(spec, out):
         g1 = once(graph=True)
         cache.cache_clear()
         g2 = once(graph=True)
+        if case.family == "cse-overlap":
+            out.count("cse_overlap_calls")
+            out.count(f"cse_overlap_outcome:{d1[:24]}")
         if case.family == "multi-defect":
             out.count("multi_defect_calls")
             out.count(f"multi_defect_outcome:{d1[:40]}")
-        nontrivial = case.family in ("update", "multi-defect") or case.outputs is None or len(case.inputs) > 1
+        nontrivial = case.family in ("update", "multi-defect", "cse-overlap") or case.outputs is None or len(case.inputs) > 1
         if nontrivial:
             out.distinct_key(f"{case.op}|{case.desc()}|{case.in_shapes}")
         cj = {**case.to_json(), "backend": b, "hashseed": spec["hashseed"]}
